@@ -533,6 +533,46 @@ func genC18(o *hx.Out, tier string) {
 		o.Add("missing include", impl, "gendialect", hx.HexS(addr), hx.HexS(addr)+";"+hx.HexS("c18_nowhere.xml")+";"+hx.HexS("1")+";"+hx.HexS("OK"))
 	}
 
+	// what was refused leaves nothing behind: definitions refused at a field with an extension flag and
+	// a name that is not snake case, then every good package generated once more, elsewhere: the files
+	// are those of the first time
+	{
+		for k, typ := range []string{"uint128_t", "bool[3]", "float16_t"} {
+			addr := fmt.Sprintf("c18_refused_%d.xml", k)
+			f := xFile{addr: addr, version: "1", msgs: []xMsg{{name: "REFUSED", id: 1, fields: []xField{
+				{typ: "uint8_t", name: "ok"}, {typ: typ, name: "notSnake_Case", ext: true}}}}}
+			os.WriteFile(filepath.Join(gdir, addr), []byte(xmlOf(f)), 0o644) //nolint:errcheck
+			convertIn(gdir, addr)                                               //nolint:errcheck
+			os.RemoveAll(filepath.Join(gdir, pkgNameOf(addr)))
+		}
+		after := filepath.Join(gdir, "after")
+		os.MkdirAll(after, 0o755) //nolint:errcheck
+		for _, p := range pkgs {
+			if p.err != nil {
+				continue
+			}
+			for _, f := range p.files {
+				os.WriteFile(filepath.Join(after, f.addr), []byte(xmlOf(f)), 0o644) //nolint:errcheck
+			}
+			same := "same"
+			if err := convertIn(after, p.root); err != nil {
+				same = "REFUSED-THE-SECOND-TIME " + err.Error()
+			} else {
+				a, b := dirFiles(filepath.Join(gdir, p.name)), dirFiles(filepath.Join(after, p.name))
+				if len(a) != len(b) {
+					same = "DIFFERENT-FILE-SET"
+				}
+				for k, v := range a {
+					if !bytes.Equal(v, b[k]) {
+						same = "DIFFERENT " + k
+					}
+				}
+			}
+			o.Add("generated again after refused definitions", same, "expect", "same")
+		}
+		os.RemoveAll(after)
+	}
+
 	// ---- the probe: compile the generated packages and report what they are ----
 	var pb strings.Builder
 	pb.WriteString("package main\n\nimport (\n\t\"fmt\"\n\t\"reflect\"\n\t\"strings\"\n\n\t\"github.com/bluenviron/gomavlib/v3/pkg/dialect\"\n\t\"github.com/bluenviron/gomavlib/v3/pkg/message\"\n\t\"verifharness/hx\"\n")
